@@ -45,7 +45,7 @@ func init() {
 		Level: "exploration",
 		// the classes added later come last, so that the case indices (and per-case PRNGs) of the earlier classes never move
 		Cases: func(tier string) int {
-			return forcedCases + inflightN(tier) + randomN(tier) + startupN(tier) + rejectedN(tier) + retryN(tier) + closetoN(tier) + ownctxN(tier)
+			return forcedCases + inflightN(tier) + randomN(tier) + startupN(tier) + rejectedN(tier) + retryN(tier) + closetoN(tier) + ownctxN(tier) + reactN(tier)
 		},
 		Rule: "forced part: the RunHandlers goroutine is parked right after a handler's Started() channel closed; the goroutine that waited on Started() then calls Stop() and Stopped() (must not panic, Stopped() must be non-nil) and, after the release, Stopped() must close; " +
 			"while still parked, a second Run is issued (must be refused with an error); optionally the Run context is cancelled during the start-up (Run must still return nil); x {handler added before Run, added after Run and started by RunHandlers} x {1..3 handlers} x {scripted, GoChannel subscriber} x repeats. " +
@@ -79,9 +79,13 @@ func init() {
 			"Then {no Stop, Stop of one handler, Stop of one started by RunHandlers, Stop of every handler started by Run - only handlers under a context of the caller's are left}: Stopped() closes, the others handle a new message, the router stays open; " +
 			"optionally one handler function is busy with a message when the ending comes (released at quiescence); ending x {Stop all, cancel of the Run context - which reaches none of the handlers started under the caller's context -, Close, subscriptions closed} x context kind x {scripted, GoChannel} x repeats: " +
 			"the router closes itself, Run returns nil, a second Run is refused, one Subscribe per handler. " +
+			"react part: every case builds 32 small routers one after the other (1..3 handlers before Run; or 0..2 before Run and 1..2 added after Run and started by one RunHandlers call); 1..2 observer goroutines per observed handler (a random non-empty subset of the handlers of Run's own start-up, resp. of the handlers added after Run; busy-looping observers: one per handler, at most two handlers) wait for its Started() " +
+			"{in a busy loop over a non-blocking receive on another P (bounded, then a blocking receive), the same with runtime.Gosched() between the polls, in a plain blocking receive} and, the moment they see it closed, call {Stop() then Stopped(), Stopped() then Stop()}: neither may panic, Stopped() is non-nil and closes; " +
+			"one more goroutine waits for Running() the same way and, the moment it sees it closed, looks whether every handler added before Run holds its subscription (scripted subscribers); then the handlers that were not observed handle a new message, the rest is ended {Stop all, cancel, Close, subscriptions closed; nothing, if every handler was observed: the last handler has ended} " +
+			"and the router closes itself, Run returns nil, a second Run is refused, one Subscribe per handler: x way of waiting x {Run's start-up, RunHandlers} x {scripted, GoChannel} x repeats. " +
 			"Oracle: when Running() is observed closed every handler added before Run holds a subscription and a message emitted at that instant is handled; exactly one Subscribe per handler whatever the number of RunHandlers calls; after Started(): Stop() does not panic, Stopped() is non-nil and closes; " +
 			"after stopping a handler, handlers that do not share its publisher still handle new messages; when the last handler ends or the Run context is cancelled Run returns nil (quiescence detector); a second Run returns an error. " +
-			"Non-trivial: forced point reached / in-flight stage reached / program contained RunHandlers repetition, a Stop or a post-Running emission / the start-up event was issued with >= 1 handler still to start (or before Running() closed) / >= 1 call was refused / >= 1 RunHandlers (or Run) call returned an injected start-up error and was retried / >= 1 close ran into CloseTimeout (Close returned an error or the router logged that its own close failed) / >= 1 handler was started by a RunHandlers call whose context is independent of Run's. Distinct = (program, hook fingerprint).",
+			"Non-trivial: forced point reached / in-flight stage reached / program contained RunHandlers repetition, a Stop or a post-Running emission / the start-up event was issued with >= 1 handler still to start (or before Running() closed) / >= 1 call was refused / >= 1 RunHandlers (or Run) call returned an injected start-up error and was retried / >= 1 close ran into CloseTimeout (Close returned an error or the router logged that its own close failed) / >= 1 handler was started by a RunHandlers call whose context is independent of Run's / >= 1 polling observer saw Started() open before it saw it closed (blocking observers: were waiting before the start-up began). Distinct = (program, hook fingerprint).",
 		Assumptions: []string{
 			"handlers are not added while the router is shutting down; subscribers honour their context (message.Subscriber contract)",
 			"start-up part: RunHandlers is called with the Run context; after Close / cancel during a start-up nothing is demanded about the handlers that were not started yet (started and torn down, or never started: both accepted)",
@@ -118,7 +122,10 @@ func run(e *vlib.Env) vlib.Result {
 	if j -= retryN(e.Tier); j < closetoN(e.Tier) {
 		return closeto(e, j)
 	}
-	return ownctx(e, j-closetoN(e.Tier))
+	if j -= closetoN(e.Tier); j < ownctxN(e.Tier) {
+		return ownctx(e, j)
+	}
+	return react(e, j-ownctxN(e.Tier))
 }
 
 type hrec struct {
